@@ -385,7 +385,7 @@ func sigExec(c sigCase) *sigTrace {
 		st.After = int(p.pc.SignalingState())
 		if st.After != st.Before && op.K != sigClose {
 			// the handler runs in its own goroutine: wait for it
-			deadline := time.Now().Add(2 * time.Second)
+			deadline := time.Now().Add(10 * time.Second)
 			for p.count() == n0 && time.Now().Before(deadline) {
 				time.Sleep(20 * time.Microsecond)
 			}
